@@ -13,7 +13,7 @@
    with exact arithmetic, with an abstract rounding operator, and with IEEE binary32 (Flocq) in the theorems, and with
    native floats in the extracted driver (bitwise correspondence with the real code).  No proofs in this file. *)
 From Coq Require Import List ZArith Bool PeanoNat.
-From PS Require Import Arith.
+From PS Require Import Arith Generated_nnls NnlsModel.
 Import ListNotations.
 
 Section Generic.
@@ -105,13 +105,11 @@ Definition glam_backtransform (naxes : list nat) (monodim : nat) (x : list K) : 
 (* splineutil.c:50-67 cholmod_tril: dim x dim, entry (row, col) = 1 for row >= col, else 0 *)
 Definition tril (n : nat) : list (list K) :=
   map (fun r => map (fun c => if c <=? r then one else zero) (seq 0 n)) (seq 0 n).
-Fixpoint dotK (u v : list K) : K :=
-  match u, v with a :: u', c :: v' => add (mul a c) (dotK u' v') | _, _ => zero end.
-Definition mvK (M : list (list K)) (v : list K) : list K := map (fun r => dotK r v) M.
+(* vectors and matrices: NnlsModel.dot, NnlsModel.mv (dense lists, as in C11) *)
 Definition colK (j : nat) (M : list (list K)) : list K := map (fun r => nth j r zero) M.
 (* cholmod_l_ssmult(B, tril): (B tril)[p][c] = sum_r B[p][r] tril[r][c] *)
 Definition mmulK (B M : list (list K)) (ncol : nat) : list (list K) :=
-  map (fun brow => map (fun c => dotK brow (colK c M)) (seq 0 ncol)) B.
+  map (fun brow => map (fun c => dot brow (colK c M)) (seq 0 ncol)) B.
 (* cumulative sums, exact: c_j = inc_0 + ... + inc_j *)
 Fixpoint cumsum_from (acc : K) (inc : list K) : list K :=
   match inc with [] => [] | a :: r => add acc a :: cumsum_from (add acc a) r end.
